@@ -83,7 +83,15 @@ pub fn zinc_reader(bytes: &[u8], plan: &ReaderPlan) -> Result<Out, Verdict> {
         };
         match parser.parse_value() {
             Ok(_) => Out::Accepted,
-            Err(_) => Out::Rejected,
+            Err(_) => {
+                // a caller whose reader timed out asks again: every call returns a value or an error
+                if plan.fail_every > 0 {
+                    for _ in 0..24 {
+                        let _ = parser.parse_value();
+                    }
+                }
+                Out::Rejected
+            }
         }
     });
     r.map_err(|p| crash("zinc:Parser::parse_value(reader)", &p, bytes))
@@ -101,12 +109,22 @@ pub fn zinc_iter(bytes: &[u8], plan: &ReaderPlan) -> Result<(Out, usize), Verdic
             Err(_) => return (Out::Rejected, 0),
         };
         let mut rows = 0usize;
+        let mut errors = 0usize;
         for row in it {
             match row {
                 Ok(_) => rows += 1,
-                // what the iterator does after its first error is not specified: stop there
+                // *what* the iterator yields after its first error is not specified; with a reader that
+                // only timed out the caller keeps pulling, and every further call must still return
+                // (a row, an error, or the end) - bounded here, since an endless run of errors is allowed
+                Err(_) if plan.fail_every > 0 && errors < 48 => errors += 1,
                 Err(_) => return (Out::Rejected, rows),
             }
+            if rows > bytes.len() + 8 {
+                break;
+            }
+        }
+        if errors > 0 {
+            return (Out::Rejected, rows);
         }
         (Out::Accepted, rows)
     });
@@ -180,6 +198,9 @@ pub fn check_bytes(bytes: &[u8], plan: &ReaderPlan, rec: &mut Rec, count_nontriv
     }
     if plan.fail_at.is_some() {
         rec.class("reader:io-fault");
+    }
+    if plan.fail_every > 0 {
+        rec.class("reader:times-out-repeatedly(caller-retries)");
     }
     if plan.splits() {
         rec.class("reader:chunked/interrupted");
@@ -574,7 +595,7 @@ fn run_ladder(ctx: &mut Ctx) {
 }
 
 pub fn run(ctx: &mut Ctx) {
-    ctx.rule("inputs: arbitrary bytes (uniform and biased to the Zinc/JSON alphabets and token dictionaries), grammar-generated valid Zinc/Hayson documents, every prefix of them (<= 320 B, exhaustively), 1-3 mutations (bit flip/insert/delete/duplicate/token splice/truncate/line-ending rewrite/extra or missing cell/deleted or duplicated line/unbalanced bracket), damaged and truncated grids, windows of the repository's corpus files truncated and mutated, and a nesting ladder 1..131072 for 7 openers closed and unclosed in child processes on the main and a 2 MiB thread stack; readers: from_str, Parser::parse_value and parse_grid_iterator (to the first Err/None) over readers with generated chunk sizes, Interrupted returns and I/O faults, serde_json from_slice/from_str; oracle: returns Ok or Err - no panic, no fuel exhaustion (64*(len+16) scanner/lexer reads), no abort, no confirmed hang; non-trivial: input not empty and not merely a bare scalar; distinct by input hash");
+    ctx.rule("inputs: arbitrary bytes (uniform and biased to the Zinc/JSON alphabets and token dictionaries), grammar-generated valid Zinc/Hayson documents, every prefix of them (<= 320 B, exhaustively), 1-3 mutations (bit flip/insert/delete/duplicate/token splice/truncate/line-ending rewrite/extra or missing cell/deleted or duplicated line/unbalanced bracket), damaged and truncated grids, windows of the repository's corpus files truncated and mutated, and a nesting ladder 1..131072 for 7 openers closed and unclosed in child processes on the main and a 2 MiB thread stack; readers: from_str, Parser::parse_value and parse_grid_iterator (to the first Err/None) over readers with generated chunk sizes, Interrupted returns, I/O faults (once, for ever, or a timeout on every n-th call after which the caller asks again: up to 24 more parse_value calls / 48 more rows pulled), serde_json from_slice/from_str; oracle: returns Ok or Err - no panic, no fuel exhaustion (64*(len+16) scanner/lexer reads), no abort, no confirmed hang; non-trivial: input not empty and not merely a bare scalar; distinct by input hash");
     ctx.assume("fuel ticks at every Scanner::read / Lexer::read (hook) bound every parsing loop; what the row iterator does after its first error is not asserted");
     let depth = ctx.tier.pick(2, 3) as u32;
     run_ladder(ctx);
@@ -625,6 +646,8 @@ pub fn split_fuzz_input(data: &[u8]) -> (ReaderPlan, &[u8]) {
                 interrupt_every: (b >> 1) & 3,
                 fail_at: None,
                 fail_forever: false,
+                // bit 3: a reader that times out on every third call (the caller asks again)
+                fail_every: if b & 8 != 0 { 3 } else { 0 },
             },
             rest,
         ),
